@@ -301,7 +301,7 @@ pub fn run(ctx: &mut Ctx) {
     let mut cases = vec![];
     // (id, functional, composition, full lattice?)
     let fluids: Vec<(&str, Fl, Vec<f64>, bool)> = match tier {
-        Tier::Quick => vec![("pcsaft:methane", methane.clone(), vec![1.0], true), ("pcsaft:methane+ethane", binary.clone(), vec![0.6, 0.4], false)],
+        Tier::Quick => vec![("pcsaft:methane", methane.clone(), vec![1.0], true), ("pcsaft:methane+ethane", binary.clone(), vec![0.6, 0.4], false), ("gcpcsaft:hexane", hexane_gc.clone(), vec![1.0], false)],
         Tier::Thorough => vec![
             ("pcsaft:methane", methane.clone(), vec![1.0], true),
             ("pcsaft:propane", propane.clone(), vec![1.0], true),
